@@ -653,6 +653,16 @@ fn part_tls() -> PartResult {
 pub fn replay_fun(scenario: &str, input: &Value) -> Vec<Finding> {
     match scenario {
         "fun:c20-example" => example_findings().0,
+        "fun:c20-predefined-lists" => {
+            // the configuration is identified by its label (the script list is fixed)
+            let label = input["cfg"]["label"].as_str().unwrap_or("");
+            let slot = input["slot"].as_u64().unwrap_or(0) as usize;
+            let line = input["line"].as_str().unwrap_or("");
+            match predefined_lists_scripts().into_iter().find(|sc| sc.cfg.label == label && sc.slot == slot && sc.line == line) {
+                Some(sc) => super::chat::run_script(&sc, &super::chat::c08_enforce_focus()).0,
+                None => vec![Finding { sig: "machinery".into(), detail: format!("no such predefined-lists script: {:?}", label) }],
+            }
+        }
         "fun:c20-behaviour" => {
             let d = &input["default_modes"];
             let b = |i: usize| d[i].as_bool().unwrap_or(false);
@@ -660,6 +670,45 @@ pub fn replay_fun(scenario: &str, input: &Value) -> Vec<Finding> {
         }
         _ => vec![],
     }
+}
+
+/// "Predefined channels ... govern behaviour": the configured ban / exception / invite-exception
+/// lists decide admission and speech exactly like lists set by MODE - also a list that is
+/// written but empty (`exception = []`) and lists with several masks.
+pub fn predefined_lists_scripts() -> Vec<super::chat::Script> {
+    use crate::scn::CfgChan;
+    let mut out = vec![];
+    let users = || vec![(0usize, "alice".to_string(), "au".to_string()), (1, "evil".to_string(), "eu".to_string()), (2, "evil2".to_string(), "fu".to_string())];
+    let shapes: Vec<(Vec<&str>, Vec<&str>, Vec<&str>, bool, &str)> = vec![
+        // (ban, exception, invite exception, lists written even when empty, flags)
+        (vec!["evil*!*@*"], vec![], vec![], false, ""),
+        (vec!["evil*!*@*"], vec![], vec![], true, ""),
+        (vec!["evil*!*@*"], vec!["evil!*@*"], vec![], false, ""),
+        (vec!["evil*!*@*"], vec!["evil!*@*", "zed!*@*"], vec![], false, ""),
+        (vec!["evil*!*@*"], vec!["zed!*@*", "evil2!*@*"], vec![], true, ""),
+        (vec![], vec![], vec![], true, ""),
+        (vec![], vec![], vec!["evil!*@*"], false, "i"),
+        (vec![], vec![], vec![], true, "i"),
+        (vec![], vec![], vec!["zed!*@*", "evil2!*@*"], true, "i"),
+        (vec!["evil*!*@*"], vec!["evil!*@*"], vec!["evil*!*@*"], true, "im"),
+    ];
+    for (ban, exc, inv, present, flags) in shapes {
+        let ch = CfgChan {
+            name: "#p".into(),
+            ban: ban.iter().map(|s| s.to_string()).collect(),
+            exception: exc.iter().map(|s| s.to_string()).collect(),
+            invite_exception: inv.iter().map(|s| s.to_string()).collect(),
+            operators: vec!["alice".into()],
+            flags: flags.into(),
+            empty_lists_present: present,
+            ..Default::default()
+        };
+        let cfg = crate::scn::Cfg { channels: vec![ch], label: format!("predefined #p ban={:?} exception={:?} invex={:?} written-when-empty={} flags={}", ban, exc, inv, present, flags), ..Default::default() };
+        for (slot, line) in [(1usize, "JOIN #p"), (2, "JOIN #p"), (1, "PRIVMSG #p :from outside")] {
+            out.push(super::chat::Script { cfg: cfg.clone(), users: users(), prelude: vec![(0, "JOIN #p".into())], slot, line: line.into() });
+        }
+    }
+    out
 }
 
 pub fn predefined_user_contended(full: bool) -> crate::scn::ChatScn {
@@ -696,6 +745,7 @@ pub fn plan(quick: bool) -> Plan {
     plan.parts.extend(super::reg::c20_user_parts(quick));
     // "predefined users": who counts as one is decided by the USER name the connection has
     // when its registration completes, whatever earlier attempts of that connection named
+    plan.parts.push(Part::Custom("fun:c20-predefined-lists".into(), Box::new(|| super::chat::sweep("fun:c20-predefined-lists", predefined_lists_scripts(), super::chat::c08_enforce_focus(), vec!["JOIN", "474", "473"]))));
     plan.parts.push(Part::Bfs(Box::new(predefined_user_contended(!quick)), super::lim(if quick { 6 } else { 7 }, 2_000_000, if quick { 20.0 } else { 600.0 })));
     plan.parts.extend(super::life::c20_oper_parts(quick));
     plan.rule.push_str("; (f) predefined channels (the 16-setting lattice of C16: settings present from start-up, listed in MODE queries, ranks given on join, persistence while empty), predefined users (3 configurations of C03) and predefined operators / default user modes (2 configurations of C11) on the wire");
